@@ -695,11 +695,15 @@ func writeEvidence(ck *Check, tier string, seed int64, spaces []Space, res *Resu
 	if len(samples) > 60 {
 		samples = samples[:60]
 	}
-	states := res.Nontrivial + res.States
+	states := res.Nontrivial
+	trans := res.Transitions
+	if res.States > 0 {
+		// explicit-state searches report their own distinct states; a transition is one executed case
+		states, trans = res.States, res.Evals
+	}
 	if states == 0 {
 		states = res.Evals
 	}
-	trans := res.Transitions
 	if trans == 0 {
 		trans = res.Evals
 	}
@@ -708,7 +712,8 @@ func writeEvidence(ck *Check, tier string, seed int64, spaces []Space, res *Resu
 		"transitions":                   trans,
 		"traces_validated_against_impl": res.Evals,
 		"evaluations":                   res.Evals,
-		"distinct_nontrivial":           res.Nontrivial + res.States,
+		"distinct_nontrivial":           states,
+		"operations_on_implementation":  res.Transitions,
 		"rule":                          ck.Rule,
 		"samples":                       samples,
 		"exhaustive":                    res.Exhaustive && res.Evals >= total,
